@@ -41,6 +41,9 @@ def run(v, tier, seed, replay):
         cases.append(dict(edges=[e], mode=fixed[(hsh >> 4) % len(fixed)], t04=0, move=0, order=hsh, coarse=[1, 2, 3, 5][(hsh >> 8) % 4]))
         ncoarse += 1
     res, fails = solver.flow_replay(exe, cases)
+    for f_ in [x for x in fails if x.startswith("CRASH:")]:
+        v.violation("flow/crash", f_, None)
+    fails = [x for x in fails if not x.startswith("CRASH:")]
     if fails:
         raise Infra("; ".join(fails[:2]))
     worst = 0.0
@@ -77,8 +80,11 @@ def run(v, tier, seed, replay):
         for k in range(1, 6):
             cmds.append("SW 1 %d %d" % (k, (sw >> (k - 1)) & 1))
         cmds += ["EVOLVE 1 2", "SW 1 %d %d" % (rng.randrange(1, 6), rng.randrange(2)), "EVOLVE 1 1", "DESTROY 1"]
-        rc, lines, err = solver.run_script(exe, cmds)
+        rc, lines, err = solver.run_script(exe, cmds, timeout=240)
         ev = [l for l in lines if l.startswith("{")]
+        if solver.died(rc):
+            solver.crash_violation(v, "protocol", rc, cmds, err)
+            continue
         if rc != 0:
             raise Infra("solver_drive failed: " + err[-500:])
         if any('"threw":true' in l for l in ev):
